@@ -1546,7 +1546,7 @@ Example update_action_guard_instance :
     cf_outcome simple_rx c' w_req = ([(5, [(VMethod, [], str "GET")])], Some (500, 5, DDeny)).
 Proof.
   eexists. eexists. split; [vm_compute; reflexivity|]. split; [reflexivity|]. split; [reflexivity|].
-  split; vm_compute; reflexivity.
+  split; [vm_compute; reflexivity|]. vm_compute. reflexivity.
 Qed.
 
 (* ================= the rest of the transaction after the ctl ================= *)
@@ -1591,4 +1591,41 @@ Proof.
   apply IH. pose proof H as [_ [_ [B _]]]. rewrite <- B. destruct (st_intr s1); [exact H|].
   unfold eval_phase. apply (Rel_set_skip (RXt rx ids v e) (RXt_frame rx ids v e)).
   apply (tgt_sim_list rx all ids v e p rq all). exact H.
+Qed.
+
+(* ================= unguarded corollaries for the tag / msg forms, guard instances ================= *)
+Theorem remove_by_tag_msg_equiv rx dflt src c d c' rq :
+  cf_compile dflt src = Some c -> (exists t, d = DRemoveByTag t) \/ (exists m, d = DRemoveByMsg m) ->
+  cf_apply d c = Some c' ->
+  exists c'', cf_compile dflt (cf_rewrite d src) = Some c'' /\ cf_outcome rx c' rq = cf_outcome rx c'' rq.
+Proof.
+  intros Hc [[t E]|[m E]] Ha; subst d; eapply remove_equiv; try eassumption; reflexivity.
+Qed.
+
+Theorem update_target_by_tag_equiv rx dflt src c t items c' rq :
+  cf_compile dflt src = Some c -> cf_apply (DUpdTargetByTag t items) c = Some c' ->
+  exists c'', cf_compile dflt (cf_rewrite (DUpdTargetByTag t items) src) = Some c'' /\
+              cf_outcome rx c' rq = cf_outcome rx c'' rq.
+Proof.
+  intros Hc Ha. eapply update_target_equiv; try eassumption; [reflexivity|]. right. eauto.
+Qed.
+
+(* a mixed list with a range, a chained rule set with a marker: the guards hold and the directive acts *)
+Example remove_guard_instance :
+  exists c c', cf_compile w_dflt w0_src = Some c /\ zero_free (DRemoveById [IdRange 5 6; IdOne 9]) = true /\
+    cf_apply (DRemoveById [IdRange 5 6; IdOne 9]) c = Some c' /\
+    cf_outcome simple_rx c' w_req = ([(7, [(VArgs, str "a", str "x")])], None).
+Proof.
+  eexists. eexists. split; [vm_compute; reflexivity|]. split; [reflexivity|].
+  split; [vm_compute; reflexivity|]. vm_compute. reflexivity.
+Qed.
+
+Example update_target_guard_instance :
+  exists c c', cf_compile w_dflt w0_src = Some c /\
+    zero_free (DUpdTargetById [IdOne 6; IdOne 7] [TNeg VArgs (KStr (str "a")); TPos false VMethod KNone]) = true /\
+    cf_apply (DUpdTargetById [IdOne 6; IdOne 7] [TNeg VArgs (KStr (str "a")); TPos false VMethod KNone]) c = Some c' /\
+    cf_outcome simple_rx c' w_req = ([(5, [(VMethod, [], str "GET")])], None).
+Proof.
+  eexists. eexists. split; [vm_compute; reflexivity|]. split; [reflexivity|].
+  split; [vm_compute; reflexivity|]. vm_compute. reflexivity.
 Qed.
